@@ -24,6 +24,7 @@ const (
 	vpContBrDone
 	vpContBrKill
 	vpContBrExit
+	vpHostCallerRecv
 )
 
 func verifPoint(id, arg int) {}
